@@ -155,7 +155,9 @@ class RegSub(Sub):
     name = "registers"
     budget = {"quick": 8000, "thorough": 80000}
     rule = ("1..6 SPI transactions (read/write, assigned / one-bit-neighbour / arbitrary address, random value, CS "
-            "abort after any number of clocks incl. mid-bit, extra clocks after completion, SCK jitter) on 8 register "
+            "abort after any number of clocks incl. mid-bit, extra clocks after completion -- 0/1/3, or (1 in 4) an over-long "
+            "frame whose surplus is 0..7 pad bits + one or two further well-formed commands with words, mostly writes to "
+            "assigned registers, exact / one clock short / one beyond / cut inside --, SCK jitter) on 8 register "
             "maps (memory incl. narrow, external-signal, constant, read-only signal, SFR, write-only, unassigned; "
             "address_size 3..15, register_size 8..32); oracle = register-file model: SDO at the host's sample edges "
             "equals the model's value of the addressed register for every complete transaction, every memory "
@@ -182,6 +184,13 @@ class RegSub(Sub):
             abort=st.one_of(st.none(), st.none(), st.none(),
                             st.tuples(st.one_of(st.integers(0, 47), st.sampled_from([-1, -2, -3, -4])), st.booleans())),
             extra=weighted([(0, 4), (1, 1), (3, 1)]),
+            # over-long frame: surplus clocks shaped like 1..2 further commands (mostly writes to assigned registers)
+            xl=st.one_of(st.none(), st.none(), st.none(), st.fixed_dictionaries(dict(
+                pad=weighted([(0, 6), (1, 1), (2, 1), (7, 1)]),
+                cmds=st.lists(st.tuples(weighted([(1, 5), (0, 1)]), SEL, st.integers(0, 0x7FFF),
+                                        st.one_of(st.integers(0, 0xFFFFFFFF), st.sampled_from([0, 0xFFFFFFFF]))),
+                              min_size=1, max_size=2),
+                cut=weighted([(0, 5), (1, 1), (2, 1), (3, 1)]), cutn=st.integers(1, 47)))),
             rdv=st.integers(0, 0xFFFFFFFF),
             gap=st.integers(4, 8), lead=st.integers(1, 4), trail=weighted([(1, 2), (0, 3), (2, 1), (3, 1), (4, 1)]), sdid=st.integers(0, 2),
         ))
@@ -245,7 +254,24 @@ class RegSub(Sub):
             falls = []
             d = op["sdid"]
             emit(max(1, op["lead"]) - 1)
-            allbits = bits[:nfall] + [(op["rdv"] >> i) & 1 for i in range(extra)]
+            surplus = [(op["rdv"] >> i) & 1 for i in range(extra)]
+            xl = op.get("xl") if abort is None else None
+            if xl is not None:
+                # surplus = [pad bits] + one or two well-formed commands (+ their words), optionally one clock short
+                # of / one clock beyond / cut inside the last word; at most 2 * total + 7 surplus clocks
+                xb = [(op["rdv"] >> i) & 1 for i in range(xl["pad"])]
+                for w2, sel2, raw2, v2 in xl["cmds"]:
+                    a2 = pick_address(cfg, sel2, raw2)
+                    c2 = (w2 << asz) | a2
+                    xb += [(c2 >> (asz - i)) & 1 for i in range(asz + 1)] + [(v2 >> (rsz - 1 - i)) & 1 for i in range(rsz)]
+                if xl["cut"] == 1:
+                    xb = xb[:-1]
+                elif xl["cut"] == 2:
+                    xb = xb + [1]
+                elif xl["cut"] == 3:
+                    xb = xb[:len(xb) - xl["cutn"] % total]
+                surplus = xb
+            allbits = bits[:nfall] + surplus
             for bi, b in enumerate(allbits):
                 ha, hb = half(), half()
                 # low phase: sdi changes >= 1 cycle after the falling edge that sampled the previous bit
@@ -311,6 +337,8 @@ class RegSub(Sub):
                             "write-strobe-on-read" if not p["w"] else "write-strobe-wrong-register")
                     else:
                         sig = "write-strobe-missing" if not cyc else "write-strobe-repeated"
+                    if p["complete"] and len(p["falls"]) > total and cyc and cyc[-1] > p["falls"][total] + 4:
+                        sig = "surplus-clocks-had-effect"
                     return fail(f"{what}: write strobe of register {sn[1:]} high in cycles {cyc}, expected {want} "
                                 f"cycle(s)", signature=sig)
                 if want and p["wsig"] is not None:
@@ -327,6 +355,8 @@ class RegSub(Sub):
                         sig = "aborted-changed-register" if not p["complete"] else (
                             "read-changed-register" if not p["w"] else
                             ("wrong-value-written" if a == p["addr"] else "other-register-changed"))
+                        if p["complete"] and len(p["falls"]) > total and t > p["falls"][total] + 4:
+                            sig = "surplus-clocks-had-effect"
                         return fail(f"{what}: register 0x{a:x} = 0x{val:x} in cycle {t} (before 0x{old:x}, model "
                                     f"after 0x{new:x})", signature=sig)
                 if getattr(trace[end - 1], f"v{a}") != new:
@@ -350,6 +380,11 @@ class RegSub(Sub):
                     labels.add("abort-one-bit-short")
         if any(op["extra"] and op["abort"] is None for op in case["ops"]):
             labels.add("extra-clocks")
+        for p in plan:
+            if p["complete"] and len(p["falls"]) >= 2 * total:
+                labels.add("surplus>=one-transaction")
+            if p["complete"] and len(p["falls"]) >= 3 * total:
+                labels.add("surplus>=two-transactions")
         if roundtrip:
             labels.add("write-readback")
         return Result(ok=True, nontrivial=roundtrip, labels=tuple(sorted(labels)))
